@@ -17,7 +17,7 @@ func H_C03_nested_update() {
 	a := buildState(e, cfg)
 	c := a.coll("c")
 	v := []float64{-7, 1, 9}[nd.Choice("new", 3)] // below / between / above the stored keys
-	crit := genCmpLeaf("c", "n.a", opLit)
+	crit := &ref.Crit{Op: []int{ref.OpGtEq, ref.OpLt, ref.OpEq}[nd.Choice("c.op", 3)], Field: "n.a", Val: ref.Value("c.v", opLit)}
 	q := query.NewQuery("c").Where(buildCrit(crit))
 	victims := c.matching(crit)
 	var err error
